@@ -16,22 +16,22 @@ NCPU = os.cpu_count() or 8
 
 # property -> parameters. n = worlds per tier (upper bound), budget = seconds per worker, batch = worlds per process
 PROPS = {
-    'C01': dict(race=False, quick=(40000, 25), thorough=(3000000, 600), batch=2500),
-    'C02': dict(race=False, quick=(40000, 25), thorough=(3000000, 600), batch=2500),
-    'C03': dict(race=False, quick=(12000, 30), thorough=(800000, 600), batch=750),
-    'C04': dict(race=False, quick=(30000, 25), thorough=(2000000, 600), batch=2000),
-    'C05': dict(race=False, quick=(30000, 25), thorough=(2000000, 600), batch=2000),
-    'C06': dict(race=True,  quick=(16000, 35), thorough=(1500000, 900), batch=250),
-    'C07': dict(race=True,  quick=(6000, 35), thorough=(400000, 900), batch=32),
-    'C08': dict(race=False, quick=(30000, 25), thorough=(2000000, 600), batch=2000),
-    'C09': dict(race=False, quick=(30000, 25), thorough=(2000000, 600), batch=2000),
-    'C13': dict(race=False, quick=(30000, 25), thorough=(2000000, 600), batch=2000),
-    'C14': dict(race=False, quick=(30000, 25), thorough=(2000000, 600), batch=2000),
-    'C16': dict(race=True,  quick=(12000, 35), thorough=(1000000, 900), batch=250),
-    'C17': dict(race=False, quick=(20000, 25), thorough=(1500000, 600), batch=1500),
-    'C18': dict(race=False, quick=(30000, 25), thorough=(2000000, 600), batch=2000),
-    'C19': dict(race=False, quick=(20000, 25), thorough=(1500000, 600), batch=1500),
-    'C20': dict(race=True,  quick=(12000, 35), thorough=(1000000, 900), batch=250),
+    'C01': dict(race=False, quick=(50000000, 25), thorough=(2000000000, 600), batch=2500),
+    'C02': dict(race=False, quick=(50000000, 25), thorough=(2000000000, 600), batch=2500),
+    'C03': dict(race=False, quick=(50000000, 30), thorough=(2000000000, 600), batch=750),
+    'C04': dict(race=False, quick=(50000000, 25), thorough=(2000000000, 600), batch=2000),
+    'C05': dict(race=False, quick=(50000000, 25), thorough=(2000000000, 600), batch=2000),
+    'C06': dict(race=True,  quick=(50000000, 35), thorough=(2000000000, 900), batch=250),
+    'C07': dict(race=True,  quick=(50000000, 35), thorough=(2000000000, 900), batch=1, cold=True),
+    'C08': dict(race=False, quick=(50000000, 25), thorough=(2000000000, 600), batch=2000),
+    'C09': dict(race=False, quick=(50000000, 25), thorough=(2000000000, 600), batch=2000),
+    'C13': dict(race=False, quick=(50000000, 25), thorough=(2000000000, 600), batch=2000),
+    'C14': dict(race=False, quick=(50000000, 25), thorough=(2000000000, 600), batch=2000),
+    'C16': dict(race=True,  quick=(50000000, 35), thorough=(2000000000, 900), batch=250),
+    'C17': dict(race=False, quick=(50000000, 25), thorough=(2000000000, 600), batch=1500),
+    'C18': dict(race=False, quick=(50000000, 25), thorough=(2000000000, 600), batch=2000),
+    'C19': dict(race=False, quick=(50000000, 25), thorough=(2000000000, 600), batch=1500),
+    'C20': dict(race=True,  quick=(50000000, 35), thorough=(2000000000, 900), batch=250),
 }
 
 FAULT_KEYS = ('pool_', 'fault_', 'preempt', 'op_reject', 'hostile', 'garbage', 'short_read', 'lock_blocked')
@@ -120,8 +120,10 @@ class Runner:
 
     def env(self):
         e = dict(os.environ)
-        e['GORACE'] = 'halt_on_error=1 exitcode=66'
+        e['GORACE'] = 'halt_on_error=1 exitcode=66 atexit_sleep_ms=0'
         e['GOMAXPROCS'] = '2'
+        if self.cfg.get('cold'):
+            e['VERIF_COLD'] = '1'
         return e
 
     def run_batches(self):
